@@ -3,7 +3,8 @@
    index-arithmetic part of the property: for ALL integers start, stop, idx the
    window the SQL computes is the Redis slice of the sequence. *)
 From Redka Require Import Base Db Ops Spec Abs Inv Refine ImplList ProofRange ProofRefineList.
-From Redka Require ProofFloat.
+From Redka Require ProofFloat ProofFloatMid.
+From Redka Require Import ProofRefineZAlg.
 
 (* the LIMIT window of sqlRange / sqlTrim is the Redis slice: negative indexes
    count from the tail, out-of-range bounds are clamped, inverted or empty
@@ -85,6 +86,28 @@ Theorem C02_push_refuted_at_2_pow_53 :
        list_op o = true -> wf_lop o -> Inv d -> R now d s -> step_refines now o d s).
 Proof. exact C02_list_step_refines_counterexample. Qed.
 
+(* ---- the pivot inserts (ProofRefineZAlg.v, Section LInsertGen) ----
+   LInsertBefore / LInsertAfter place the new element at the midpoint of the pivot's position and
+   its neighbour's (max+1 / min-1 at the ends).  Premises: every stored position is at most 2^1022
+   in magnitude (ProofFloatMid.small: the sum of two such positions is finite; positions start at 0
+   and move by +-1 and by midpoints, so this is far beyond reach), and the midpoint was a new position
+   (insert_free: no UNIQUE (kid, pos) collision - the implementation refuses the insert once
+   two neighbours are adjacent binary64 values, after 52 halvings). Without the bound the statement is
+   false of the model (C02_linsert_refuted_at_2_pow_1023: the sum overflows to +inf). *)
+Theorem C02_pivot_inserts_refine : forall now o d s,
+  is_linsert o -> Inv d -> R now d s ->
+  (forall x, In x (rlist d) -> ProofFloatMid.small (l_pos x) = true) ->
+  insert_free now o d -> step_refines now o d s.
+Proof.
+  intros; eapply (C02_linsert_step_refines_bounded ProofFloat.fle_refl ProofFloat.fle_trans ProofFloat.fle_total
+    ProofFloat.flt_le ProofFloat.feq_le ProofFloat.fle_num ProofFloat.fadd1_ge ProofFloat.fsub1_le ProofFloat.fzero_num
+    ProofFloatMid.small ProofFloatMid.fmid_small); eauto.
+Qed.
+
+Theorem C02_linsert_refuted_at_2_pow_1023 :
+  ~ (forall now o d s, is_linsert o -> Inv d -> R now d s -> insert_free now o d -> step_refines now o d s).
+Proof. exact C02_linsert_step_refines_counterexample. Qed.
+
 Print Assumptions C02_range_window_is_redis_slice.
 Print Assumptions C02_range_returns_slice.
 Print Assumptions C02_range_missing_key_is_empty.
@@ -96,3 +119,5 @@ Print Assumptions C02_operations_that_do_not_push_refine.
 Print Assumptions C02_push_refuted_at_2_pow_53.
 Print Assumptions C02_push_front_prepends.
 Print Assumptions C02_pop_front_removes_first.
+Print Assumptions C02_pivot_inserts_refine.
+Print Assumptions C02_linsert_refuted_at_2_pow_1023.
